@@ -133,7 +133,7 @@ def obligations(tier):
            ['util.XmlWrite.XmlStream.startElement/characters/_encode'], harness='C18_xml', func='op_content1', timeout=170 if q else 600),
         Ob('element_content_nested', 'ch', 'two nested elements, each with one of 3 names x 3 attribute sets and one of 4 texts',
            ['util.XmlWrite.XmlStream.startElement/characters/_encode'], harness='C18_xml', func='op_content', timeout=2400, tiers=('thorough',)),
-        Ob('xhtml_stream_sequences', 'ch', 'XhtmlStream with <= 3 operations incl. charactersWithBr on texts with newlines',
+        Ob('xhtml_stream_sequences', 'ch', 'XhtmlStream with <= 3 operations incl. charactersWithBr on 8 texts with LF, CR LF, trailing CR, NEL, U+2028, U+2029',
            ['util.XmlWrite.XhtmlStream.__enter__/charactersWithBr', 'XmlWrite.Element'], harness='C18_xml', func='xhtml_sequences', timeout=120 if q else 600),
         Ob('rle_index_entries_expand_small', 'ch', 'integer sequences of length 1..3 over -1..2 (decimal) and ascending non-negative positions (hex)',
            ['RP66V1.IndexXML.xml_rle_write', 'common.Rle.create_rle', 'util.XmlWrite.Element'], harness='C18_xml', func='rle_entries_small', timeout=170 if q else 600),
